@@ -152,6 +152,7 @@ func makePlaintextRedirects(allConfigs []*SiteConfig) []*SiteConfig {
 	httpsPort := strconv.Itoa(certmagic.HTTPSPort)
 	for i, cfg := range allConfigs {
 		if cfg.TLS.Enabled &&
+			cfg.Addr.Scheme != "http" && cfg.Addr.Port != httpPort && // TLS will be disabled for explicitly-HTTP sites
 			!cfg.TLS.NoRedirect &&
 			!hostHasOtherPort(allConfigs, i, httpPort) &&
 			(cfg.Addr.Port == httpsPort || !hostHasOtherPort(allConfigs, i, httpsPort)) {
